@@ -53,6 +53,8 @@ def make(name, rng):
             else:
                 est = artlib.TD_FALCON(mods[0], mods[1], mods[2], gamma_values=g, channel_dims=[2 * d for d in ds],
                                        td_alpha=rng.choice([1.0, 0.5]), td_lambda=rng.choice([1.0, 0.5, 0.0]))
+            for mm, dd in zip(mods, ds):          # as if prepare_data had seen data spanning the unit cube
+                mm.d_min_, mm.d_max_ = np.zeros(dd), np.ones(dd)
             def gen(n):
                 return ([cc_rows(rng, n, ds[0]), cc_rows(rng, n, 1), cc_rows(rng, n, 1)], None)
             return dict(est=est, gen=gen, pf=True, sup=False, kind="falcon", fit_ok=(name == "FALCON"))
@@ -180,7 +182,11 @@ def gen_zoo_history(rng, name):
 
 def describe(name, z, X, y, ops, mode, eps, i):
     est = z["est"]
-    return {"estimator": name, "params": repr(est.get_params() if name not in ("Fusion",) else {"gamma": list(est.params["gamma_values"])})[:400],
+    try:
+        ps = repr(est.get_params() if name not in ("Fusion",) else {"gamma": list(est.params["gamma_values"])})[:400]
+    except Exception:
+        ps = type(est).__name__
+    return {"estimator": name, "params": ps,
             "X": [x.tolist() for x in X] if isinstance(X, list) else X.tolist(), "y": None if y is None else np.asarray(y).tolist(),
             "ops": [(o, list(ix)) for o, ix in ops], "mode": mode, "eps": eps, "failing_op": i}
 
